@@ -30,7 +30,14 @@ def urls_from_text(string):
         if s > 0 and string[s - 1] == "[":
             if "](" in url:
                 remainder, url = url.split("](", 1)
-                yield remainder.strip()
+                remainder = remainder.strip()
+
+                # NOTE: the link text may not be an url by itself, when the
+                # match only held together through what follows ('[http://a](b@c.fr)')
+                text_match = re.match(URL_IN_TEXT_RE, remainder)
+
+                if text_match is not None and text_match.end() == len(remainder):
+                    yield remainder
 
                 # NOTE: the link target may not be an url at all, or may be
                 # followed by something else
